@@ -173,13 +173,23 @@ def _guard_before_logging(ctx, out, rng):
         AUDIT.setLevel(pick(rng, [logging.WARNING, logging.CRITICAL, logging.NOTSET]))
         GUARDLOG.setLevel(pick(rng, [logging.WARNING, logging.CRITICAL]))
         try:
-            g = Guard(st, polcase.make_checker(k))          # no handler yet, levels above INFO
+            cached = rng.random() < 0.5
+            if cached:                                       # no handler yet, levels above INFO
+                g = create_cached_guard(st, polcase.make_checker(k), maxsize=pick(rng, [None, 1, 256]))[0]
+            else:
+                g = Guard(st, polcase.make_checker(k))
             with Listen() as L:
                 try:
                     answer = g.is_allowed(inq)
                 except Exception:
                     answer = 'escaped'
                 arecs, grecs = L.take()
+                if cached:
+                    try:
+                        answer2 = g.is_allowed(inq)
+                    except Exception:
+                        answer2 = 'escaped'
+                    arecs2, grecs2 = L.take()
         finally:
             AUDIT.setLevel(la)
             GUARDLOG.setLevel(lg)
@@ -187,8 +197,16 @@ def _guard_before_logging(ctx, out, rng):
         desc = {'checker': k, 'policies': [repr(p) for p in case['policies']], 'inquiry': repr(case['inquiry']),
                 'msg_class': 'uid', 'matches': matches, 'order': 'Guard(...) constructed, then logging configured'}
         out.evaluations += 1
-        out.count('guard-before-logging')
-        for what, sig in check_call(out, desc, answer, arecs, grecs, objs, matches, 'uid'):
+        out.count('guard-before-logging' + (':cached' if cached else ''))
+        if cached:
+            desc['order'] = 'create_cached_guard(...) called, then logging configured, then asked twice'
+        found = list(check_call(out, desc, answer, arecs, grecs, objs, matches, 'uid'))
+        if cached and not found:
+            found = [(w + ' (second, cached call)', sg) for w, sg in
+                     check_call(out, desc, answer2, arecs2, grecs2, objs, matches, 'uid', hit=True)]
+            if found:
+                answer, arecs, grecs = answer2, arecs2, grecs2
+        for what, sig in found:
             f = Failure('oracle', desc, {'answer': answer, 'audit': [getattr(r, 'effect', None) for r in arecs],
                                          'decision_log': [r.getMessage()[:60] for r in grecs]}, None, what,
                         'Vakt.C17.exactly_one_audit_when_completed / decision_log_once_and_agrees')
